@@ -15,8 +15,15 @@
 //                                    directory on another file system (opt-in, never set by the driver): the target is a file there
 //   content(n, seed, kind): kind 0 any bytes, 1 text with LF/CRLF/CR lines around the 255-byte chunk, 2 one long line,
 //   3 NUL-free bytes (first byte ASCII); n is used as given (generators aim it at 255 / 65536 multiples)
+//   so how mode n1 seed1 kind q fl n2 seed2   one File (how 0) / TextFile (how 1) object for writing AND reading: open(mode), write n1 bytes,
+//                                    [flush()], info query q on the OPEN object (0 none, 1 size, 2 lastModified, 3 isFile, 4 isDirectory,
+//                                    5 creationDate, 6 exists), write n2 more bytes, close(); then size(), content(), firstBytes(),
+//                                    text(), lines() through the SAME object (close() between reads) must equal the model
 // part "lines": ln len end fill seed (end 0 LF, 1 CRLF, 2 lone CR, 3 nothing)...; wr how (0 TextFile::write, 1 put, 2 POSIX)
 // part "bom":   bom enc how | utf8   enc 0 UTF-8+BOM, 1 UTF-16LE+BOM, 2 UTF-16BE+BOM, 3 UTF-8 without BOM
+//               bomr enc how f1 n1 s1 f2 n2 s2 ..   long texts by runs: n_i filler characters of kind f_i (0 ASCII, 1 three-byte BMP,
+//                                    2 two-byte, 3 LF + ASCII) followed by the scalar value s_i (mapped onto a non-zero scalar); used to
+//                                    place supplementary-plane characters (surrogate pairs) and CR LF around every multiple of 2048 code units
 #include "common/vfrc.h"
 #include "common/ref_io.h"
 #include "common/ref_utf.h"
@@ -443,6 +450,90 @@ static void run_history(const vf::Case& c)
 			h.exists = wrote = true;
 			ctx += vf::str(" open TextFile mode ", mode == 0 ? "WRITE" : mode == 1 ? "APPEND" : "RW", ", ", k, " writes, ", out.size(), " bytes");
 		}
+		else if (o.name == "so") {
+			// one object writes, is queried while open, is closed and then read: ordinary use of a File / TextFile
+			int how = (int)(o.i(0) & 1), mode = (int)(((o.i(1) % 3) + 3) % 3);
+			if (mode == 2 && !h.exists)
+				continue;
+			int tk = how ? 1 : 0; // TextFile needs NUL-free text
+			std::string d1 = tk ? text_content(o.i(2), (uint64_t)o.i(3), (int)o.i(4)) : content(o.i(2), (uint64_t)o.i(3), (int)o.i(4));
+			std::string d2 = tk ? text_content(o.i(7), (uint64_t)o.i(8), (int)o.i(4)) : content(o.i(7), (uint64_t)o.i(8), (int)o.i(4));
+			int q = (int)(((o.i(5) % 7) + 7) % 7);
+			bool fl = (o.i(6) & 1) != 0;
+			static const char* qn[] = {"none", "size()", "lastModified()", "isFile()", "isDirectory()", "creationDate()", "exists()"};
+			std::string expect = mode == 0 ? std::string() : h.model; // WRITE truncates
+			size_t pos = mode == 1 ? expect.size() : 0;
+			overlay(expect, pos, d1);
+			std::string sofar = expect;
+			overlay(expect, pos + d1.size(), d2);
+			ctx += vf::str(how ? " TextFile" : " File", " mode ", mode == 0 ? "WRITE" : mode == 1 ? "APPEND" : "RW", ": ", d1.size(), " bytes, ", fl ? "flush(), " : "", qn[q], " while open, ", d2.size(),
+			               " more bytes, close(), then read through the same object");
+			auto session = [&](File& f, TextFile* t) {
+				VF_CHECK(!!f, ctx, ": cannot open");
+				if (t)
+					VF_CHECK(t->append(AS(d1)), ctx, ": append returned false");
+				else
+					VF_CHECK(f.write(d1.data(), (int)d1.size()) == (int)d1.size(), ctx, ": write returned a short count");
+				if (fl)
+					f.flush();
+				// info queries on the open writer; only what the library defines is asserted: after flush() the first
+				// size() query of this object is the number of bytes in the file (without flush() buffered bytes are not counted)
+				if (q == 1) {
+					Long sz = f.size();
+					if (fl)
+						VF_CHECK(sz == (Long)sofar.size(), ctx, ": size() on the open, flushed writer = ", (long long)sz, " want ", sofar.size());
+				}
+				else if (q == 2)
+					(void)f.lastModified();
+				else if (q == 3)
+					VF_CHECK(f.isFile(), ctx, ": isFile() false on the open writer");
+				else if (q == 4)
+					VF_CHECK(!f.isDirectory(), ctx, ": isDirectory() true on the open writer");
+				else if (q == 5)
+					(void)f.creationDate();
+				else if (q == 6)
+					VF_CHECK(f.exists(), ctx, ": exists() false on the open writer");
+				if (t)
+					*t << AS(d2);
+				else
+					VF_CHECK(f.write(d2.data(), (int)d2.size()) == (int)d2.size(), ctx, ": write returned a short count");
+				f.close();
+				h.model = expect;
+				h.exists = true;
+				// the same object is now an ordinary closed File on the path
+				long long sz = (long long)expect.size();
+				VF_CHECK(f.size() == sz, ctx, ": size() through the same object after close() = ", (long long)f.size(), " want ", sz);
+				ByteArray c1 = f.content();
+				VF_CHECK(S(c1) == expect, ctx, ": content() through the same object after close(): ", diffmsg(S(c1), expect));
+				f.close();
+				long long n = sz > 3 ? sz - 2 : sz + 5;
+				ByteArray c2 = f.firstBytes((int)n);
+				VF_CHECK(S(c2) == expect.substr(0, (size_t)std::min(n, sz)), ctx, ": firstBytes(", n, ") through the same object after close(): ", diffmsg(S(c2), expect.substr(0, (size_t)std::min(n, sz))));
+				f.close();
+				VF_CHECK(f.size() == sz, ctx, ": size() through the same object after reading = ", (long long)f.size(), " want ", sz);
+				if (t && expect.find('\0') == std::string::npos && !bom_like(expect)) {
+					String tx = t->text();
+					VF_CHECK(S(tx) == expect, ctx, ": text() through the same object after close(): ", diffmsg(S(tx), expect));
+					t->close();
+					Array<String> ls = t->lines();
+					std::vector<std::string> want = ref_lines(expect);
+					VF_CHECK((size_t)ls.length() == want.size(), ctx, ": lines() through the same object returned ", ls.length(), " lines, want ", want.size());
+					for (size_t i = 0; i < want.size(); i++)
+						VF_CHECK(S(ls[(int)i]) == want[i], ctx, ": lines()[", i, "] through the same object: ", diffmsg(S(ls[(int)i]), want[i]));
+					t->close();
+				}
+			};
+			File::OpenMode om = mode == 0 ? File::WRITE : mode == 1 ? File::APPEND : File::RW;
+			if (how) {
+				TextFile t(path, om);
+				session(t, &t);
+			}
+			else {
+				File f(path, om);
+				session(f, 0);
+			}
+			wrote = true;
+		}
 		else if (o.name == "cp" || o.name == "mv") {
 			if (!h.exists)
 				continue;
@@ -566,58 +657,89 @@ static std::string fold_crlf(const std::string& s)
 	return r;
 }
 
+static uint32_t to_scalar(long long v)
+{
+	if (v < 0)
+		v = -v;
+	uint32_t c = (uint32_t)(v % 0x110000);
+	if (c == 0 || !ref::is_scalar(c))
+		c = '?';
+	return c;
+}
+
+// the scalar values of a "bomr" op
+static std::vector<uint32_t> bomr_scalars(const vf::Op& o)
+{
+	std::vector<uint32_t> cps;
+	for (size_t k = 2; k + 2 < o.a.size() && cps.size() < 20000; k += 3) {
+		int f = (int)(((o.a[k] % 4) + 4) % 4);
+		long long n = o.a[k + 1] < 0 ? 0 : o.a[k + 1] > 10000 ? 10000 : o.a[k + 1];
+		for (long long i = 0; i < n; i++)
+			cps.push_back(f == 0 ? (uint32_t)('a' + i % 26) : f == 1 ? (uint32_t)(0x4E00 + i % 100) : f == 2 ? (uint32_t)(0xE9 + i % 20) : (i == 0 ? (uint32_t)'\n' : (uint32_t)('A' + i % 26)));
+		cps.push_back(to_scalar(o.a[k + 2]));
+	}
+	return cps;
+}
+
+static void check_bom(int enc, int how, std::vector<uint32_t> cps)
+{
+	cps.erase(std::remove(cps.begin(), cps.end(), 0u), cps.end());
+	if (enc == 3 && !cps.empty() && cps[0] == 0xFEFF)
+		return; // that *is* a BOM file
+	std::string u8 = ref::utf8(cps), bytes, want = u8;
+	if (enc == 0)
+		bytes = "\xef\xbb\xbf" + u8;
+	else if (enc == 3)
+		bytes = u8;
+	else {
+		std::vector<uint16_t> w = ref::utf16(cps);
+		bytes = enc == 1 ? "\xff\xfe" : "\xfe\xff";
+		for (uint16_t u : w) {
+			char lo = (char)(u & 0xff), hi = (char)(u >> 8);
+			if (enc == 1) {
+				bytes += lo;
+				bytes += hi;
+			}
+			else {
+				bytes += hi;
+				bytes += lo;
+			}
+		}
+	}
+	if (how & 1)
+		VF_CHECK(File(AS(P())).put(BA(bytes)), "File::put returned false");
+	else
+		VF_CHECK(ref::spit(P(), bytes), "harness: cannot write ", P());
+	static const char* names[] = {"UTF-8 with BOM", "UTF-16LE with BOM", "UTF-16BE with BOM", "UTF-8 without BOM"};
+	// UTF-16: the text itself or the text with every CR LF folded into LF (what the reader does by design) is accepted
+	bool u16 = enc == 1 || enc == 2;
+	std::string folded = u16 ? fold_crlf(want) : want;
+	String t = TextFile(AS(P())).text();
+	VF_CHECK(S(t) == want || S(t) == folded, names[enc], " file of ", cps.size(), " scalars (", bytes.size(), " bytes): text(): ", diffmsg(S(t), want));
+	VF_CHECK((int)strlen(*t) == t.length(), names[enc], ": text() length()/terminator disagree");
+	// an already open TextFile gives the same
+	{
+		TextFile f(AS(P()), File::READ);
+		String t2 = f.text();
+		VF_CHECK(S(t2) == want || S(t2) == folded, names[enc], " file, explicitly opened: text(): ", diffmsg(S(t2), want));
+	}
+	std::string truth;
+	VF_CHECK(ref::slurp(P(), truth) && truth == bytes, names[enc], ": reading changed the file");
+}
+
 static void run_bom(const vf::Case& c)
 {
 	cleanup();
 	for (const vf::Op& o : c.ops) {
-		if (o.name != "bom")
-			continue;
 		int enc = (int)(((o.i(0) % 4) + 4) % 4);
-		std::vector<uint32_t> cps;
-		if (!ref::utf8_decode(o.str(0), &cps))
-			continue; // not a scalar-value sequence (only after hand editing)
-		cps.erase(std::remove(cps.begin(), cps.end(), 0u), cps.end());
-		if (enc == 3 && !cps.empty() && cps[0] == 0xFEFF)
-			continue; // that *is* a BOM file
-		std::string u8 = ref::utf8(cps), bytes, want = u8;
-		if (enc == 0)
-			bytes = "\xef\xbb\xbf" + u8;
-		else if (enc == 3)
-			bytes = u8;
-		else {
-			std::vector<uint16_t> w = ref::utf16(cps);
-			bytes = enc == 1 ? "\xff\xfe" : "\xfe\xff";
-			for (uint16_t u : w) {
-				char lo = (char)(u & 0xff), hi = (char)(u >> 8);
-				if (enc == 1) {
-					bytes += lo;
-					bytes += hi;
-				}
-				else {
-					bytes += hi;
-					bytes += lo;
-				}
-			}
+		if (o.name == "bom") {
+			std::vector<uint32_t> cps;
+			if (!ref::utf8_decode(o.str(0), &cps))
+				continue; // not a scalar-value sequence (only after hand editing)
+			check_bom(enc, (int)o.i(1), cps);
 		}
-		if (o.i(1) & 1)
-			VF_CHECK(File(AS(P())).put(BA(bytes)), "File::put returned false");
-		else
-			VF_CHECK(ref::spit(P(), bytes), "harness: cannot write ", P());
-		static const char* names[] = {"UTF-8 with BOM", "UTF-16LE with BOM", "UTF-16BE with BOM", "UTF-8 without BOM"};
-		// UTF-16: the text itself or the text with every CR LF folded into LF (what the reader does by design) is accepted
-		bool u16 = enc == 1 || enc == 2;
-		std::string folded = u16 ? fold_crlf(want) : want;
-		String t = TextFile(AS(P())).text();
-		VF_CHECK(S(t) == want || S(t) == folded, names[enc], " file of ", cps.size(), " scalars (", bytes.size(), " bytes): text(): ", diffmsg(S(t), want));
-		VF_CHECK((int)strlen(*t) == t.length(), names[enc], ": text() length()/terminator disagree");
-		// an already open TextFile gives the same
-		{
-			TextFile f(AS(P()), File::READ);
-			String t2 = f.text();
-			VF_CHECK(S(t2) == want || S(t2) == folded, names[enc], " file, explicitly opened: text(): ", diffmsg(S(t2), want));
-		}
-		std::string truth;
-		VF_CHECK(ref::slurp(P(), truth) && truth == bytes, names[enc], ": reading changed the file");
+		else if (o.name == "bomr")
+			check_bom(enc, (int)o.i(1), bomr_scalars(o));
 	}
 	cleanup();
 }
@@ -626,7 +748,7 @@ void vf_run_case(const std::string& part, const vf::Case& c)
 {
 	if (part == "lines")
 		run_lines(c);
-	else if (part == "bom")
+	else if (part == "bom" || part == "bomlong")
 		run_bom(c);
 	else
 		run_history(c);
@@ -675,15 +797,21 @@ static Gen<vf::Op> histop()
 			o.name = "fs";
 			o.a = {*vf::irange<int>(0, 1), seed, *vf::irange<int>(0, 12)};
 		}
-		else if (w < 74) {
+		else if (w < 72) {
 			o.name = "tw";
 			o.a = {*gen::elementOf(std::vector<int>{0, 1, 2, 2, 2, 3, 4, 5, 6}), *sizegen(false), seed, *vf::irange<int>(1, 3)};
 		}
-		else if (w < 86) {
+		else if (w < 82) {
 			o.name = "tm";
 			o.a = {*gen::elementOf(std::vector<int>{0, 1, 1, 2}), seed, *vf::irange<int>(0, 8)};
 		}
-		else if (w < 94) {
+		else if (w < 90) {
+			// one object for writing, querying and reading
+			o.name = "so";
+			o.a = {*vf::irange<int>(0, 1), *gen::elementOf(std::vector<int>{0, 1, 1, 1, 2}), *sizegen(false), seed, *vf::irange<int>(0, 3), *gen::elementOf(std::vector<int>{0, 1, 1, 1, 2, 3, 4, 5, 6}),
+			       *vf::irange<int>(0, 1), *sizegen(false), seed + 1};
+		}
+		else if (w < 96) {
 			o.name = "cp";
 			o.a = {*vf::irange<int>(0, 7)};
 		}
@@ -784,6 +912,58 @@ static Gen<vf::Case> bomgen()
 	});
 }
 
+// long BOM texts: supplementary-plane characters (surrogate pairs in UTF-16), CR LF and BMP characters placed at generated
+// offsets around every multiple of 2048 code units; total 2040..2056, 4088..4104 and random lengths up to ~9000 code units
+static Gen<vf::Case> bomlonggen()
+{
+	return gen::exec([]() {
+		vf::Op o("bomr", {*gen::elementOf(std::vector<int>{1, 1, 2, 2, 0, 3}), *vf::irange<int>(0, 1)});
+		auto special = []() -> long long {
+			int w = *vf::irange<int>(0, 9);
+			if (w < 6)
+				return *gen::oneOf(vf::irange<long long>(0x10000, 0x10ffff), gen::elementOf(std::vector<long long>{0x1F600, 0x10000, 0x10ffff, 0x1D11E, 0x20000}));
+			if (w < 8)
+				return '\r'; // with filler 3 (LF first) this is a CR LF pair across the position
+			return *gen::elementOf(std::vector<long long>{0x20AC, 0xFEFF, 0xFFFD, 0xD7FF, 0xE000, 'x', 0xE9});
+		};
+		int shape = *vf::irange<int>(0, 9);
+		long long units = 0; // UTF-16 code units so far
+		auto add = [&](int f, long long n, long long sc) {
+			o.a.push_back(f);
+			o.a.push_back(n);
+			o.a.push_back(sc);
+			units += n + (sc >= 0x10000 ? 2 : 1);
+		};
+		int kmax = shape < 4 ? 1 : shape < 7 ? 2 : *vf::irange<int>(1, 4);
+		for (int k = 1; k <= kmax; k++) {
+			// the special character starts at code unit 2048k-1+delta
+			long long delta = *gen::elementOf(std::vector<long long>{-1, -1, -1, 0, 0, 0, 0, 1, 1, -2, 2, -3, 3, -4, 4});
+			long long target = 2048LL * k - 1 + delta;
+			if (shape >= 8 && *vf::irange<int>(0, 1))
+				target = *vf::irange<long long>(units, units + 3000); // anywhere
+			if (target < units)
+				target = units;
+			int f = *gen::elementOf(std::vector<int>{0, 0, 1, 2, 3});
+			// optionally an earlier pair in the run, so that BMP-count and unit-count differ
+			if (target - units > 40 && *vf::irange<int>(0, 3) == 0) {
+				long long n0 = *vf::irange<long long>(0, 30);
+				add(f, n0, *vf::irange<long long>(0x10000, 0x10ffff));
+			}
+			add(f, target - units, special());
+			// directly following characters: more pairs / CR LF right after the edge
+			int extra = *vf::irange<int>(0, 2);
+			for (int e = 0; e < extra; e++)
+				add(*gen::elementOf(std::vector<int>{0, 3}), *vf::irange<long long>(0, 2), special());
+		}
+		// tail: total length 2040..2056 / 4088..4104 or a short remainder
+		long long tail = *vf::irange<long long>(0, 9);
+		add(0, tail, 'z');
+		vf::Case c;
+		c.add(o);
+		return c;
+	});
+}
+
 // ---- classification (also decides non-triviality)
 
 static void classify_hist(const vf::Case& c)
@@ -827,6 +1007,27 @@ static void classify_hist(const vf::Case& c)
 			else
 				size = o.i(1);
 			exists = true;
+		}
+		else if (o.name == "so") {
+			int mode = (int)o.i(1) % 3;
+			if (mode == 2 && !exists)
+				continue;
+			static const char* qn[] = {"none", "size", "lastModified", "isFile", "isDirectory", "creationDate", "exists"};
+			int q = (int)(o.i(5) % 7);
+			st.cls(std::string("hist.same_object.") + (o.i(0) & 1 ? "TextFile" : "File"));
+			st.cls(std::string("hist.same_object.query_while_open.") + qn[q]);
+			if (q && o.i(7) > 0) {
+				st.cls("hist.same_object.query_while_open_then_more_written");
+				nt = true;
+			}
+			if (q == 1 && (o.i(6) & 1))
+				st.cls("hist.same_object.size_after_flush_asserted");
+			if (mode == 1 && exists) {
+				appended_after_reopen = true;
+				st.cls("hist.append_after_reopen");
+			}
+			exists = true;
+			size = -1;
 		}
 		else if (o.name == "fs" || o.name == "tm") {
 			if ((o.i(0) % (o.name == "fs" ? 2 : 3)) == 1 && exists) {
@@ -904,6 +1105,36 @@ static void classify_bom(const vf::Case& c)
 	auto& st = vf::stats();
 	const vf::Op& o = c.ops[0];
 	std::vector<uint32_t> cps;
+	if (o.name == "bomr") {
+		cps = bomr_scalars(o);
+		std::vector<uint16_t> w = ref::utf16(cps);
+		bool edge = false, near = false, crlfedge = false;
+		for (size_t i = 0; i + 1 < w.size(); i++) {
+			if (w[i] >= 0xD800 && w[i] < 0xDC00) {
+				if (i % 2048 == 2047)
+					edge = true;
+				if ((i + 4) % 2048 <= 8)
+					near = true;
+			}
+			if (w[i] == '\r' && w[i + 1] == '\n' && i % 2048 == 2047)
+				crlfedge = true;
+		}
+		static const char* en[] = {"utf8", "utf16le", "utf16be", "none"};
+		int enc = (int)(o.i(0) % 4);
+		st.cls(std::string("bom.long.") + en[enc]);
+		st.cls(w.size() >= 2040 && w.size() <= 2056 ? "bom.long.units_2040..2056" : w.size() >= 4088 && w.size() <= 4104 ? "bom.long.units_4088..4104" : w.size() > 4104 ? "bom.long.units>4104" : "bom.long.other_length");
+		if (near)
+			st.cls("bom.long.surrogate_pair_within_4_units_of_a_2048_multiple");
+		if (edge) {
+			st.cls("bom.long.high_surrogate_at_unit_2048k-1");
+			if (enc == 1 || enc == 2)
+				st.cls("bom.long.high_surrogate_at_unit_2048k-1.utf16");
+		}
+		if (crlfedge)
+			st.cls("bom.long.CR|LF_across_unit_2048k");
+		st.nt(vf::fnv(vf::serialize(c)));
+		return;
+	}
 	ref::utf8_decode(o.str(0), &cps);
 	bool nonbmp = false, crlf = o.str(0).find("\r\n") != std::string::npos;
 	for (uint32_t s : cps)
@@ -972,4 +1203,5 @@ void vf_search(const vf::Args& a)
 	}();
 	[&]() { vf::check_cases("lines", a.n(3000, 12000), 30, linesgen(), classify_lines); }();
 	[&]() { vf::check_cases("bom", a.n(3000, 15000), 100, bomgen(), classify_bom); }();
+	[&]() { vf::check_cases("bomlong", a.n(250, 4000), 100, bomlonggen(), classify_bom); }();
 }
